@@ -931,16 +931,22 @@ func c05Monitor(out *vh.Out, h c05Hist, obs []c05MsgObs, events []c05Event) {
 			if (m.quarantine == 1 && res != "perm") || (m.quarantine == 2 && res == "ok") {
 				out.Violation("C05/quarantine-not-refused", op, fmt.Sprintf("message %d recipient %d: %s", mi, i, res))
 			}
-			// TLSA discovery failure on every candidate that MTA-STS does not exclude anyway: deferred
-			if m.quarantine == 0 && f.dane {
-				all := true
+			// TLSA discovery failure: when every candidate either has a failing discovery or is
+			// excluded by enforce-mode MTA-STS anyway, and at least one is of the first kind, the
+			// delivery is deferred (in whatever order the candidates are tried)
+			if m.quarantine != 1 && f.dane {
+				all, some := true, false
 				for _, mx := range h.doms[di].mxs {
 					excluded := f.mtasts && h.doms[di].sts == 'e' && !mx.stsMatch
-					if excluded || c05Discovery(mx) != "fail" {
+					failed := c05Discovery(mx) == "fail"
+					if !excluded && !failed {
 						all = false
 					}
+					if failed && !excluded {
+						some = true
+					}
 				}
-				if all && res != "temp" {
+				if all && some && res != "temp" {
 					out.Violation("C05/tlsa-failure-not-deferred", op, fmt.Sprintf("message %d recipient %d (domain %d): %s (%s)", mi, i, di, res, obs[mi].errs[i]))
 				}
 			}
@@ -1093,6 +1099,9 @@ func c05SystematicBases() []c05Hist {
 		c05MustParse("C05 hist 1000.10.11.10 0e:1.1.o.v.0.0.0.n.1.0;2.1.o.u.1.0.0.n.1.0 0e:3.1.o.v.1.0.0.n.0.0 000:0"),
 		// weak configuration: no policies at all
 		c05MustParse("C05 hist 0000.-.10.1 0a:1.1.h.v.0.0.0.n.0.0 0a:3.1.o.w.0.0.0.n.1.0 000:0"),
+		// MTA-STS enforce + DANE: the listed first MX has a failing TLSA lookup, the second is not listed
+		c05MustParse("C05 hist 1010.10.11.10 0e:1.1.o.v.1.1.1.f.0.0;2.1.o.v.0.1.1.n.0.0 0e:3.1.o.v.1.1.1.e.1.0 000:0"),
+		c05MustParse("C05 hist 1010.10.11.1 0e:2.1.o.v.0.1.1.n.0.0;1.1.o.v.1.1.1.f.0.0 0e:3.1.o.v.1.1.1.e.1.0 000:0"),
 		// relaxed REQUIRETLS, MX without the extension, second domain plaintext
 		c05MustParse("C05 hist 1000.-.11.10 0t:1.1.o.v.1.0.0.n.0.0 0t:3.1.s.v.1.0.0.n.0.0 000:0"),
 	}
@@ -1114,6 +1123,10 @@ func c05FixedOps() []string {
 		"C05 hist 0010.-.10.10 0a:1.0.o.v.0.1.1.n.0.0;2.1.o.v.0.1.1.m.0.1 0a:3.1.o.v.0.1.1.n.0.0 000:0",
 		"C05 hist 1010.01.10.10 0t:1.1.o.v.0.1.1.n.0.0;2.1.o.v.1.1.1.f.0.1 0a:3.1.o.v.0.1.1.n.0.0 000:0",
 		"C05 hist 0010.-.10.10 0a:1.1.s.v.0.1.1.e.0.1 0a:3.0.o.v.0.1.1.n.0.1 000:1,0",
+		// a temporary failure of the first candidate (TLSA SERVFAIL / down) was reported as the
+		// permanent refusal of the second one (not listed in the enforced MTA-STS policy)
+		"C05 hist 1010.-.10.10 0e:1.1.o.v.1.1.1.f.0.0;2.1.o.v.0.1.1.n.0.0 0a:3.1.o.v.0.1.1.n.0.0 000:0",
+		"C05 hist 1000.-.10.10 0e:1.0.o.v.1.1.1.n.0.0;2.1.o.v.0.1.1.n.0.0 0a:3.1.o.v.0.1.1.n.0.0 000:0",
 	}
 }
 
@@ -1125,6 +1138,52 @@ func c05Kinds() []c05Msg {
 		{rcpts: []int{0, 1}, requireTLS: true},
 		{rcpts: []int{0}, quarantine: 2},
 	}
+}
+
+// ---------------------------------------------------------------- pairwise coverage of the fact product
+
+// c05Factors lists, for one history, the value of every factor of the property's quantifier
+// (configuration, domain 0, its first MX candidate, kind of the first message).
+func c05Factors(h c05Hist) []string {
+	m := h.doms[0].mxs[0]
+	msg := h.msgs[0]
+	loc := "-"
+	if h.cfg.local {
+		loc = fmt.Sprintf("%d%d", h.cfg.minTLS, h.cfg.minMX)
+	}
+	return []string{
+		"mtasts=" + c05b(h.cfg.mtasts), "dane=" + c05b(h.cfg.dane), "dnssec=" + c05b(h.cfg.dnssec), "local=" + loc,
+		"override=" + c05b(h.cfg.override), "relaxed=" + c05b(h.cfg.relaxed), fmt.Sprintf("reuse=%d", h.cfg.reuse),
+		"mxAD=" + c05b(h.doms[0].mxAD), fmt.Sprintf("sts=%c", h.doms[0].sts), fmt.Sprintf("nmx=%d", len(h.doms[0].mxs)),
+		"up=" + c05b(m.up), fmt.Sprintf("starttls=%c", m.starttls), fmt.Sprintf("cert=%c", m.cert), "listed=" + c05b(m.stsMatch),
+		"aAD=" + c05b(m.aAD), "tlsaAD=" + c05b(m.tlsaAD), fmt.Sprintf("tlsa=%c", m.tlsa), "reqtls=" + c05b(m.reqtls),
+		"msg=" + c05b(msg.requireTLS) + c05b(msg.tlsNo) + strconv.Itoa(msg.quarantine),
+	}
+}
+
+// number of values of each factor, in the order of c05Factors
+var c05FactorSizes = []int{2, 2, 2, 10, 2, 2, 3, 2, 4, 2, 2, 4, 3, 2, 2, 2, 6, 2, 12}
+
+type c05Pairwise struct{ seen map[string]bool }
+
+func (p *c05Pairwise) add(h c05Hist) {
+	f := c05Factors(h)
+	for i := range f {
+		for j := i + 1; j < len(f); j++ {
+			p.seen[f[i]+"&"+f[j]] = true
+		}
+	}
+}
+
+func (p *c05Pairwise) report(out *vh.Out) {
+	total := 0
+	for i := range c05FactorSizes {
+		for j := i + 1; j < len(c05FactorSizes); j++ {
+			total += c05FactorSizes[i] * c05FactorSizes[j]
+		}
+	}
+	out.StatN("c05.pairwise.value-pairs-covered", len(p.seen))
+	out.StatN("c05.pairwise.value-pairs-total", total)
 }
 
 // ---------------------------------------------------------------- entry point
@@ -1325,10 +1384,13 @@ func TestVerifC05(t *testing.T) {
 			out.Stat("c05.systematic")
 		}
 	}
+	pw := &c05Pairwise{seen: map[string]bool{}}
 	n := vh.N(150)
 	for i := 0; i < n; i++ {
 		h := c05GenHist(rng.Fork())
+		pw.add(h)
 		c05OneCase(t, out, pki, h, rng, false)
 		out.Stat("c05.random")
 	}
+	pw.report(out)
 }
